@@ -71,8 +71,13 @@ def gen_histories(ctx, methods, icls, nvec, enabled):
                 continue
             vecs = nvec if (m.origin == "own" or m.name in HOT_STUB) else min(nvec, 2)
             calls, ix = [], []
+            # callers the intended class does not allow go first: a legitimate call that succeeds changes the
+            # object's status and would hide an illegitimate success behind a status error
+            c_int = icls.get(m.key(), "")
+            legit = {"AdminOnly": [2], "ChainAdminOnly": [4, 1], "ChainAdminOrAdmin": [4, 1, 2], "SelfOnly": [2, 3], "SelfOrAdmin": [2, 3]}.get(c_int, [])
+            order = [x for x in range(len(ROLES)) if x not in legit] + [x for x in range(len(ROLES)) if x in legit]
             for vec in range(vecs):
-                for role in range(len(ROLES)):
+                for role in order:
                     args = L.well_typed_args(m, vec, r)
                     typed = not any(p.startswith("other:") for p in m.params)
                     calls.append(dict(c=m.contract, m=m.name, role=role, args=args))
